@@ -212,6 +212,40 @@ func init() {
 				judge("after-line-comment", w.pre+t.src+w.post, t.line+strings.Count(w.pre, "\n"), t.kind)
 			}
 		}
+		// ONE faulty tag that makes the parser record errors on SEVERAL lines (a broken if header followed by
+		// its else two lines down, an open call closed lines later), placed so that the lines straddle 9 / 10
+		// and 99 / 100: the error starts with the line of the faulty tag, and shifting only adds k
+		for _, src := range []string{"<% if (true { %>\nx\n<% } else { %>\ny\n<% } %>", "<%= f(1,\n\n 2 3) %>\n<%= ) %>", "<% let = 1 %>\n\n\n<% let = 2 %>", "<%= (1 + %>\na\n<%= * 2 %>\nb\n<% let = 3 %>"} {
+			for _, k := range []int{0, 6, 7, 8, 9, 96, 97, 98, 99} {
+				tmpl := strings.Repeat("\n", k) + src
+				c := RCase{Tmpl: tmpl, Binds: binds, Parts: stdParts}
+				var o RObs
+				if k < 20 {
+					o = e.addRenderCase("multi-line-errors", c)
+				} else {
+					o = runRender(c)
+					e.rep.Evaluations++
+				}
+				e.Distinct(tmpl)
+				first := 0
+				if len(o.Lines) > 0 {
+					first = o.Lines[0]
+				}
+				want := k + 1
+				if strings.HasPrefix(src, "<%= f(1,") {
+					want = 0 // the first error of this one is reported where the parser stood (line k+3): only the order is judged
+				}
+				sorted := true
+				for i := 1; i < len(o.Lines); i++ {
+					if o.Lines[i] < o.Lines[i-1] {
+						sorted = false
+					}
+				}
+				if o.Class != "PARSEERR" || (want != 0 && first != want) || !sorted {
+					e.Violate("c15-wrong-line", fmt.Sprintf("%q (faulty tag on line %d): %s, error lines %v, first line %q", tmpl, k+1, o.Class, o.Lines, firstLine(o.Msg)), map[string]interface{}{"case": c, "observed": o})
+				}
+			}
+		}
 	})
 }
 
